@@ -99,6 +99,8 @@ type Exec struct {
 	looseKF   map[string]int
 	threads   *threadCtx // non-nil in concurrent mode
 	funcsSeen map[*ssa.Function]bool
+	varSubst  map[string]*Term
+	rwMemo    map[int]*Term
 
 	// counters (per worker, cumulative)
 	nQueries, nUnsat, nSat, nUnknown int
@@ -126,9 +128,175 @@ func (ex *Exec) addPC(c *Term) {
 	}
 	if c.Op == OpAnd {
 		ex.pc = append(ex.pc, c.Args...)
+		for _, a := range c.Args {
+			ex.noteEq(a)
+		}
 		return
 	}
 	ex.pc = append(ex.pc, c)
+	ex.noteEq(c)
+}
+
+// noteEq records "variable = constant" facts implied by a new conjunct; rw then
+// substitutes them so that values that became concrete fold.
+func (ex *Exec) noteEq(c *Term) {
+	switch c.Op {
+	case OpEq:
+		if c.Args[1].IsConst() {
+			ex.bindConst(c.Args[0], c.Args[1].Val)
+		}
+	case OpVar:
+		ex.bindConst(c, 1)
+	case OpNot:
+		if c.Args[0].Op == OpVar {
+			ex.bindConst(c.Args[0], 0)
+		}
+	}
+}
+
+func (ex *Exec) bindConst(a *Term, v uint64) {
+	switch a.Op {
+	case OpVar:
+		if _, ok := ex.varSubst[a.Name]; !ok {
+			ex.varSubst[a.Name] = ex.tt.Const(a.W, v)
+			ex.rwMemo = nil
+		}
+	case OpZext:
+		if v <= mask(a.Args[0].W) {
+			ex.bindConst(a.Args[0], v)
+		}
+	}
+}
+
+// rw substitutes the variables fixed by the path condition (bottom-up rebuild).
+func (ex *Exec) rw(t *Term) *Term {
+	if len(ex.varSubst) == 0 || t.IsConst() {
+		return t
+	}
+	if ex.rwMemo == nil {
+		ex.rwMemo = map[int]*Term{}
+	}
+	if r, ok := ex.rwMemo[t.ID]; ok {
+		return r
+	}
+	var r *Term
+	if t.Op == OpVar {
+		if c, ok := ex.varSubst[t.Name]; ok {
+			r = c
+		} else {
+			r = t
+		}
+	} else {
+		changed := false
+		args := make([]*Term, len(t.Args))
+		for i, a := range t.Args {
+			args[i] = ex.rw(a)
+			if args[i] != a {
+				changed = true
+			}
+		}
+		if !changed {
+			r = t
+		} else {
+			r = ex.rebuild(t, args)
+		}
+	}
+	ex.rwMemo[t.ID] = r
+	return r
+}
+
+func (ex *Exec) rebuild(t *Term, a []*Term) *Term {
+	tt := ex.tt
+	switch t.Op {
+	case OpNot:
+		return tt.Not(a[0])
+	case OpAnd:
+		return tt.And(a...)
+	case OpOr:
+		return tt.Or(a...)
+	case OpEq:
+		return tt.Eq(a[0], a[1])
+	case OpIte:
+		return tt.Ite(a[0], a[1], a[2])
+	case OpBvNot:
+		return tt.BvNot(a[0])
+	case OpBvNeg:
+		return tt.BvNeg(a[0])
+	case OpBvAnd:
+		return tt.BvAnd(a[0], a[1])
+	case OpBvOr:
+		return tt.BvOr(a[0], a[1])
+	case OpBvXor:
+		return tt.BvXor(a[0], a[1])
+	case OpBvAdd:
+		return tt.BvAdd(a[0], a[1])
+	case OpBvSub:
+		return tt.BvSub(a[0], a[1])
+	case OpBvMul:
+		return tt.BvMul(a[0], a[1])
+	case OpBvUdiv:
+		return tt.BvUdiv(a[0], a[1])
+	case OpBvUrem:
+		return tt.BvUrem(a[0], a[1])
+	case OpBvSdiv:
+		return tt.BvSdiv(a[0], a[1])
+	case OpBvSrem:
+		return tt.BvSrem(a[0], a[1])
+	case OpBvShl:
+		return tt.BvShl(a[0], a[1])
+	case OpBvLshr:
+		return tt.BvLshr(a[0], a[1])
+	case OpBvAshr:
+		return tt.BvAshr(a[0], a[1])
+	case OpUlt:
+		return tt.Ult(a[0], a[1])
+	case OpUle:
+		return tt.Ule(a[0], a[1])
+	case OpSlt:
+		return tt.Slt(a[0], a[1])
+	case OpSle:
+		return tt.Sle(a[0], a[1])
+	case OpConcat:
+		return tt.Concat(a[0], a[1])
+	case OpExtract:
+		return tt.Extract(a[0], t.Hi, t.Lo)
+	case OpZext:
+		return tt.Zext(a[0], t.W)
+	case OpSext:
+		return tt.Sext(a[0], t.W)
+	}
+	panic("rebuild: unknown op")
+}
+
+func (ex *Exec) rwSlice(s *SliceVal) *SliceVal {
+	if len(ex.varSubst) == 0 || (s.Off.IsConst() && s.Len.IsConst() && s.Cap.IsConst()) {
+		return s
+	}
+	o, l, c := ex.rw(s.Off), ex.rw(s.Len), ex.rw(s.Cap)
+	if o == s.Off && l == s.Len && c == s.Cap {
+		return s
+	}
+	n := *s
+	n.Off, n.Len, n.Cap = o, l, c
+	return &n
+}
+
+func (ex *Exec) rwValue(v Value) Value {
+	switch x := v.(type) {
+	case *Term:
+		return ex.rw(x)
+	case *SliceVal:
+		return ex.rwSlice(x)
+	case *PtrVal:
+		if x.Obj != nil && !x.Off.IsConst() {
+			if o := ex.rw(x.Off); o != x.Off {
+				n := *x
+				n.Off = o
+				return &n
+			}
+		}
+	}
+	return v
 }
 
 func (ex *Exec) modelSatisfies(extra *Term) bool {
@@ -163,7 +331,7 @@ func termVars(t *Term, seen map[int]bool, out map[string]*Term) {
 
 // slice returns the path-condition conjuncts transitively sharing variables
 // with c (constraint independence).
-func (ex *Exec) sliceFor(c *Term) []*Term {
+func (ex *Exec) sliceFor(c *Term, focus *Term) []*Term {
 	if ex.cfg.NoSlicing {
 		return ex.pc
 	}
@@ -179,6 +347,9 @@ func (ex *Exec) sliceFor(c *Term) []*Term {
 	}
 	want := map[string]*Term{}
 	termVars(c, map[int]bool{}, want)
+	if focus != nil {
+		termVars(focus, map[int]bool{}, want)
+	}
 	used := make([]bool, len(items))
 	var out []*Term
 	for changed := true; changed; {
@@ -208,7 +379,11 @@ func (ex *Exec) sliceFor(c *Term) []*Term {
 }
 
 // solve decides pc ∧ c. On sat the model is merged into ex.model.
-func (ex *Exec) solve(c *Term) SatResult {
+func (ex *Exec) solve(c *Term) SatResult { return ex.solveFocus(c, nil) }
+
+// solveFocus additionally keeps every constraint related to the variables of
+// focus in the query, so the merged model is meaningful for focus.
+func (ex *Exec) solveFocus(c *Term, focus *Term) SatResult {
 	if c.IsFalse() {
 		return Unsat
 	}
@@ -216,7 +391,7 @@ func (ex *Exec) solve(c *Term) SatResult {
 		ex.nModelHits++
 		return Sat
 	}
-	cons := ex.sliceFor(c)
+	cons := ex.sliceFor(c, focus)
 	p := NewSMTPrinter()
 	for _, x := range cons {
 		p.Assert(x)
@@ -337,7 +512,7 @@ func (ex *Exec) concretize(t *Term, what string, max int) uint64 {
 	var vals []uint64
 	excl := ex.tt.True
 	for {
-		if ex.solve(excl) != Sat {
+		if ex.solveFocus(excl, t) != Sat {
 			break
 		}
 		v := ex.model.Eval(t, map[int]uint64{})
@@ -523,6 +698,9 @@ func (ex *Exec) cellRead(o *Object, off *Term) Value {
 	if off.IsConst() {
 		if off.Val >= uint64(len(o.Cells)) {
 			ex.unsupported("internal: cell read out of object (%d of %d)", off.Val, len(o.Cells))
+		}
+		if len(ex.varSubst) != 0 {
+			return ex.rwValue(o.Cells[off.Val])
 		}
 		return o.Cells[off.Val]
 	}
@@ -717,6 +895,9 @@ func (ex *Exec) get(fr *frame, v ssa.Value) Value {
 	r, ok := fr.env[v]
 	if !ok {
 		ex.unsupported("internal: no value for %s (%T)", v.Name(), v)
+	}
+	if len(ex.varSubst) != 0 {
+		return ex.rwValue(r)
 	}
 	return r
 }
